@@ -67,6 +67,7 @@ def gen_case(seed, tier='quick', index=1):
     world = worlds.gen_world(
         rng, sheets=rng.choice([2, 3]) if half else None,
         userfuncs=rng.random() < 0.4)
+    add_env_cells(rng, world)
     if half and not world['stale']:
         for a in world['order']:
             if world['level'][a] > 0 and rng.random() < 0.6:
@@ -139,6 +140,38 @@ def gen_case(seed, tier='quick', index=1):
              'decoy': rng.random() < 0.25}
     return {'property': ID, 'seed': seed, 'kind': 'sched', 'knobs': knobs,
             'world': world, 'ops': ops}
+
+
+# constant formulas that stress or observe process-wide numeric state
+# (floating-point error handling, decimal contexts, overflow paths)
+STRESSORS = ['=EXP(800)', '=1/0', '=SQRT(-1)', '=LN(0)', '=POWER(10,400)',
+             '=10^400', '=FACT(200)', '=COSH(800)*0', '=EXP(710)-EXP(710)',
+             '=MOD(5,0)', '=LOG10(-1)', '=ASIN(2)', '=1E308*10', '=ROUND(1E308,2)']
+OBSERVERS = ['=COSH(800)', '=DEGREES(1E308)', '=ROUND(2.5,0)', '=ROUND(0.125,2)',
+             '=ROUND(-4.5,0)', '=1E308*10', '=EXP(709)', '=10/3', '=SQRT(2)',
+             '=ROUNDUP(2.341,2)', '=ROUNDDOWN(-2.349,2)', '=2^0.5', '=EXP(1)',
+             '=1/3+1/3', '=SINH(750)', '=1E-320/10', '=FLOOR(2.5,1)',
+             '=TRUNC(1E15+0.5)', '=ROUND(1.005,2)']
+
+
+def add_env_cells(rng, world):
+    """A few constant formulas on a sheet of their own: some that drive
+    numeric code into its overflow / error paths, some whose value would
+    change if that left anything behind."""
+    if rng.random() < 0.5:
+        return
+    k = 1
+    for pool, n in ((STRESSORS, rng.randint(1, 2)),
+                    (OBSERVERS, rng.randint(2, 3))):
+        for f in rng.sample(pool, n):
+            a = f'Env!A{k}'
+            k += 1
+            world['cells'][a] = f
+            world['deps'][a] = []
+            world['level'][a] = 1
+            world['order'].append(a)
+    if 'Env' not in world['sheets']:
+        world['sheets'] = list(world['sheets']) + ['Env']
 
 
 def gen_soak(rng, seed, tier):
